@@ -346,6 +346,23 @@ nodesLoop:
 				}
 				ti1 := &typeInfo{Type: typ1, Properties: propertyAddressable}
 				declaration := node.Assignment.Type == ast.AssignmentDeclaration
+				if declaration {
+					names := map[string]bool{}
+					for _, lh := range lhs {
+						ident, ok := lh.(*ast.Identifier)
+						if !ok || lh.Parenthesis() > 0 {
+							panic(tc.errorf(node, "non-name %s on left side of :=", ast.StringWithParenthesis(lh)))
+						}
+						if ident.Name != "_" && names[ident.Name] {
+							panic(tc.errorf(node, "%s repeated on left side of :=", ident.Name))
+						}
+						names[ident.Name] = true
+					}
+					// In templates 'for _ in x' is 'for _, _ := range x'.
+					if len(names) == 1 && names["_"] && tc.opts.mod != templateMod {
+						panic(tc.errorf(node, "no new variables on left side of :="))
+					}
+				}
 				indexPh := ast.NewPlaceholder()
 				tc.compilation.typeInfos[indexPh] = ti1
 				tc.obsoleteForRangeAssign(node.Assignment, lhs[0], indexPh, nil, declaration, false)
